@@ -112,7 +112,7 @@ class C12(E1Prop):
                 return None
             table = w_.pr_table()
             ids = [x['id'] for x in table]
-            target = rng.choice(ids + [999, 'abc'])
+            target = rng.choice(ids + [999, 'abc', 11, 12, 21])
             merged = [x['id'] for x in table if x['state'] == 'MERGED']
             unmerged = [x['id'] for x in table if x['state'] != 'MERGED']
             if merged and unmerged and rng.random() < 0.35:
